@@ -1,5 +1,10 @@
 """request generator shared by C05 / C06 (an echo application answers `/`, `/:a`, `/:a/:b`)"""
 METHODS = ['GET', 'PUT', 'POST', 'PATCH', 'DELETE', 'HEAD']
+STANDARD = [('Expect', '100-continue'), ('Expect', '100-continue'), ('Accept-Encoding', 'gzip, br'), ('Accept-Language', 'en'), ('If-None-Match', '"x"'), ('If-Modified-Since', 'Sun, 06 Nov 1994 08:49:37 GMT'),
+            ('Range', 'bytes=0-1'), ('Content-Type', 'text/plain'), ('Content-Type', 'application/json'), ('Origin', 'http://o.example'), ('Referer', 'http://r.example/'), ('Authorization', 'Bearer abc'),
+            ('Cache-Control', 'no-cache'), ('Pragma', 'no-cache'), ('TE', 'trailers'), ('Via', '1.1 p'), ('X-Forwarded-For', '10.0.0.1'), ('Keep-Alive', 'timeout=5'), ('Upgrade-Insecure-Requests', '1'),
+            ('Content-Encoding', 'identity'), ('Trailer', 'X-T'), ('Max-Forwards', '1'), ('DNT', '1'), ('Sec-Fetch-Mode', 'cors'), ('Transfer-Encoding', 'identity'), ('Upgrade', 'h2c'), ('Date', 'Sun, 06 Nov 1994 08:49:37 GMT'),
+            ('Forwarded', 'for=1'), ('If-Match', '*'), ('Link', '<a>'), ('Access-Control-Request-Method', 'PUT'), ('Proxy-Authorization', 'Basic eA==')]
 
 
 def request(rng, close=False, big=False):
@@ -11,6 +16,8 @@ def request(rng, close=False, big=False):
     for _ in range(rng.choice([0, 1, 2, 4])):
         hs.append(rng.choice([('X-A', '1'), ('X-A', 'two'), ('X-B', 'b' * rng.choice([1, 30])), ('X-Ctx', 'ctx%d' % rng.randrange(100)), ('Host', 'h.example'), ('accept', 'a/b'), ('Accept', 'c/d'),
                               ('Cookie', 'a=1; b=2'), ('Cookie', 'sid=1'), ('X-Eq', 'p=q&r=s=t'), ('x-lower', 'l'), ('User-Agent', 'u' * rng.choice([3, 200]))]))
+    if rng.random() < 0.3:          # standard request headers, those about connection handling and body delivery among them
+        hs.insert(rng.randrange(len(hs) + 1), rng.choice(STANDARD))
     if big: hs.append(('X-B', 'p' * rng.choice([600, 900])))
     body = b''
     if (m in ('POST', 'PUT', 'PATCH') and rng.random() < 0.8) or rng.random() < 0.15:          # any method may carry a body (GET / HEAD / DELETE too)
@@ -19,7 +26,9 @@ def request(rng, close=False, big=False):
         if rng.random() < 0.25: body = b'\x00' + body[1:]
         if rng.random() < 0.1: body = b'GET / HTTP/1.1\r\n\r\n'[:n].ljust(n, b'x')       # a body that looks like a request
         hs.insert(rng.randrange(len(hs) + 1), ('Content-Length', str(len(body))))
-    if close: hs.append(('Connection', rng.choice(['close', 'Close'])))
+    if close:
+        hs.append(('Connection', rng.choice(['close', 'Close'])))
+        if rng.random() < 0.3: hs.insert(0, ('X-Scrub', '1'))          # the echo application's Scrub fang then removes `Connection` from the request after the handler
     elif rng.random() < 0.1: hs.append(('Connection', 'keep-alive'))
     head = f'{m} {path}{q} HTTP/1.1\r\n' + ''.join(f'{k}: {v}\r\n' for k, v in hs) + '\r\n'
     return head.encode(), body
